@@ -94,6 +94,13 @@ def cases(draw):
         ion["threads"] = threads
         ion["photons"] = min(ion["photons"], 2000)
         ion["jitter"] = None
+        # every other discrete+continuous case: the discrete distribution has
+        # no luminosity and is switched off by the constructor
+        if (ion["continuous"]["kind"] != "none" and ion["source"]["kind"] != "none"
+                and draw(st.booleans())):
+            ion["source"]["zero_luminosity"] = True
+            if ion["source"]["kind"] == "table":
+                ion["source"]["luminosities"] = [0.0 for _ in ion["source"]["luminosities"]]
         for f in ("--every-iteration-output", "--no-initial-output", "--task-plot"):
             if draw(st.booleans()) and draw(st.booleans()):
                 flags.append(f)
@@ -150,6 +157,11 @@ def check_run(case, workdir):
         if ion["source"]["kind"] == "table":
             files["sources.yml"] = c01.sources_yaml(ion["source"])
         params = c01.ion_params(ion)
+        if ion["source"].get("zero_luminosity"):
+            nopt += 1
+            r.label("opt-discrete-source-without-luminosity")
+        if ion["continuous"]["kind"] != "none":
+            r.label("opt-continuous-" + ion["continuous"]["kind"])
         if case["trackers"]:
             nopt += 1
             r.label("trackers")
@@ -205,8 +217,8 @@ def check_run(case, workdir):
 
 
 SUBS = [
-    pbt.Sub("whole_runs", cases(), check_run, quick=64, thorough=2400, shrink_budget=6,
-            rule="mode in {task-based photoionization, task-based RHD with radiation, hydro only, stop+restart}; optional components: live output with each sub-output, trackers, hydro mask, turbulence forcing, external point mass, diffuse field, continuous sources, subgrid copies, task plots, -e, --no-initial-output; 1-4 threads; <= 12^3 cells, <= 2000 packets, <= 4 steps; each run under valgrind memcheck (1/3) or the ASan+UBSan build (2/3); non-trivial: >= 2 optional components or restart mode",
+    pbt.Sub("whole_runs", cases(), check_run, quick=96, thorough=2400, shrink_budget=6,
+            rule="mode in {task-based photoionization, task-based RHD with radiation, hydro only, stop+restart}; optional components: live output with each sub-output, trackers, hydro mask, turbulence forcing, external point mass, diffuse field, continuous sources (with a discrete distribution that has no luminosity in half of the mixed cases), subgrid copies, task plots, -e, --no-initial-output; 1-4 threads; <= 12^3 cells, <= 2000 packets, <= 4 steps; each run under valgrind memcheck (1/3) or the ASan+UBSan build (2/3); non-trivial: >= 2 optional components or restart mode",
             floors={"tool-valgrind": 0.15, "tool-asan": 0.3}),
 ]
 
